@@ -216,7 +216,8 @@ def curated() -> Dict[str, World]:
     W["chain"] = World(
         "chain", {"s": V3},
         {"top.do": [S(deps=["mid"])], "mid.do": [S(deps=["s"], out="file")]},
-        ["top", "mid"], ["top", "mid"])
+        ["top", "mid"], ["top", "mid"],
+        prefixes=[[["ifchange", ["top"]], ["edit", "s", "1"]]])   # built, then a source edited: where rebuilds (and kills) start
     W["diamond"] = World(
         "diamond", {"s": V3, "u": ["0", "1"]},
         {"top.do": [S(deps=["a", "b"])], "a.do": [S(deps=["leaf"])], "b.do": [S(deps=["leaf", "u"], out="file")],
@@ -226,7 +227,8 @@ def curated() -> Dict[str, World]:
         "csum-mid", {"s": V3},
         {"top.do": [S(deps=["c"])], "c.do": [S(kind="csum", deps=["s"], proj=True, out="file")]},
         ["top", "c"], ["top", "c"],
-        prefixes=[[["ifchange", ["top"]], ["edit", "s", "2"], ["ifchange", ["top"]]]])
+        prefixes=[[["ifchange", ["top"]], ["edit", "s", "2"], ["ifchange", ["top"]]],
+                  [["ifchange", ["top"]], ["edit", "s", "2"]]])
     W["csum-deep"] = World(
         "csum-deep", {"s": V3, "u": ["0", "1"]},
         {"top.do": [S(deps=["mid", "u"])], "mid.do": [S(deps=["c"], out="file")],
@@ -272,7 +274,8 @@ def curated() -> Dict[str, World]:
         {"top.do": [S(sel=("sel", (("A", ("a",)), ("B", ("b",)))))],
          "a.do": [S(deps=["sa"])], "b.do": [S(deps=["sb"], out="file")]},
         ["top", "a", "b"], ["top"],
-        prefixes=[[["ifchange", ["top"]], ["edit", "sel", "B"], ["ifchange", ["top"]]]])
+        prefixes=[[["ifchange", ["top"]], ["edit", "sel", "B"], ["ifchange", ["top"]]],
+                  [["ifchange", ["top"]], ["edit", "sa", "1"]]])
     W["default"] = World(
         "default", {"p.src": ["0", "1"], "q.src": ["0", "1"]},
         {"default.x.do": [S(deps=["%.src"])], "top.do": [S(deps=["p.x", "q.x"])],
@@ -298,7 +301,8 @@ def curated() -> Dict[str, World]:
     W["chain-append"] = World(   # scripts that build $3 by appending, partly before their dependencies are requested
         "chain-append", {"s": V3},
         {"top.do": [S(deps=["mid"], out="append")], "mid.do": [S(deps=["s"], out="append")]},
-        ["top", "mid"], ["top", "mid"])
+        ["top", "mid"], ["top", "mid"],
+        prefixes=[[["ifchange", ["top"]], ["edit", "s", "1"]]])
     W["fail"] = World(
         "fail", {"s": ["0", "1"], "flag": ["0", "1"]},
         {"top.do": [S(deps=["m", "h"])], "m.do": [S(deps=["s"], fail="flag")], "h.do": [S(deps=["s"], out="file")]},
